@@ -93,16 +93,26 @@ class Ctx:
                 rc, o, e = run([GO, "build", "-o", xb, "."], cwd=os.path.join(VERIF, "go/xlate"), env=goenv())
                 if rc != 0:
                     raise RuntimeError("xlate does not build: " + e)
+        self._xlates = getattr(self, "_xlates", [])
+        self._xlates.append((family, out_rel, files))
+        with Lock():
+            err = self._xlate_locked(xb, family, out_rel, files)
+        if err is not None:
+            self.broken.append({"kind": "translator", "target": family, "detail": err})
+            self.note("translator rejected %s: %s" % (family, err))
+        return err
+
+    def _xlate_locked(self, xb, family, out_rel, files):
+        """run the translator (caller holds the lake lock)"""
         out = os.path.join(LEAN, "Golem/Gen", out_rel)
         os.makedirs(os.path.dirname(out), exist_ok=True)
-        with Lock():
-            rc, o, e = run([xb, family, out] + [os.path.join(REPO, f) for f in files])
+        rc, o, e = run([xb, family, out] + [os.path.join(REPO, f) for f in files])
         if rc != 0:
             # leave no stale definitions behind: a failed translation must not let old proofs pass
-            with open(out, "w") as f:
-                f.write("-- translation failed: " + e.strip().replace("\n", " ") + "\n#exit\n")
-            self.broken.append({"kind": "translator", "target": family, "detail": e.strip()})
-            self.note("translator rejected %s: %s" % (family, e.strip()))
+            stub = "-- translation failed: " + e.strip().replace("\n", " ") + "\n#exit\n"
+            if not os.path.exists(out) or open(out).read() != stub:
+                with open(out, "w") as f:
+                    f.write(stub)
             return e.strip()
         return None
 
@@ -111,10 +121,16 @@ class Ctx:
         """lake build the property module, then audit axioms of every listed theorem."""
         prop = self.prop
         mods = modules or ["Golem.Props.%s" % prop]
+        if not modules and os.path.exists(os.path.join(LEAN, "Golem/Props/%sGen.lean" % prop)):
+            mods.append("Golem.Props.%sGen" % prop)   # theorems over definitions regenerated by go/xlate
         if os.environ.get("VERIF_DEV_SKIP_PROOF"):  # development aid only; registered commands never set it
             self.broken.append({"kind": "proof-obligation", "theorem": "<skipped>", "detail": "VERIF_DEV_SKIP_PROOF set"})
             return False
         with Lock():
+            # checks may run concurrently (and, during seeded-change validation, against different trees): the Gen/
+            # files this property depends on are regenerated again here, inside the lock that covers build and audit
+            for (family, out_rel, files) in getattr(self, "_xlates", []):
+                self._xlate_locked(os.path.join(BUILD, "xlate"), family, out_rel, files)
             rc, o, e = run(["lake", "build"] + mods, cwd=LEAN)
             build_ok = rc == 0
             if not build_ok:
@@ -124,11 +140,14 @@ class Ctx:
         wanted = re.findall(r"^#print axioms\s+(\S+)", audit_src, re.M)
         seen = {}
         for m in re.finditer(r"'([^']+)' (does not depend on any axioms|depends on axioms: \[([^\]]*)\])", ao.replace("\n ", " ")):
-            name = m.group(1).split(".")[-1]
+            full = m.group(1)
             axs = [] if m.group(3) is None else [a.strip() for a in m.group(3).split(",")]
+            # theorems of Props/<ID>.lean are listed by their short name; the translation-tie theorems of
+            # Props/Stage/<X>.lean (same short names in every file) as <X>.<name>
+            name = ".".join(full.split(".")[-2:]) if ".Props.Stage." in full else full.split(".")[-1]
             seen[name] = axs
         for w in wanted:
-            short = w.split(".")[-1]
+            short = ".".join(w.split(".")[-2:]) if ".Props.Stage." in w else w.split(".")[-1]
             if build_ok and short in seen and set(seen[short]) <= ALLOWED_AXIOMS:
                 self.obligations.append((short, seen[short], True))
             else:
@@ -157,7 +176,12 @@ class Ctx:
 
     def leanchecker(self, modules=None):
         mods = modules or ["Golem.Props.%s" % self.prop]
+        if not modules and os.path.exists(os.path.join(LEAN, "Golem/Props/%sGen.lean" % self.prop)):
+            mods.append("Golem.Props.%sGen" % self.prop)
         with Lock():
+            for (family, out_rel, files) in getattr(self, "_xlates", []):
+                self._xlate_locked(os.path.join(BUILD, "xlate"), family, out_rel, files)
+            run(["lake", "build"] + mods, cwd=LEAN)
             rc, o, e = run(["lake", "env", "leanchecker"] + mods, cwd=LEAN, timeout=1800)
         self.cov["leanchecker"] = "ok" if rc == 0 else "FAILED: " + (o + e)[-500:]
         if rc != 0:
